@@ -46,6 +46,9 @@ pub mod relationcls;
 #[cfg(yamaquasi_verif)]
 pub mod verif_sched;
 
+#[cfg(yamaquasi_verif)]
+pub mod verif_hooks;
+
 // We need to perform modular multiplication modulo the input number.
 pub type Int = arith::I1024;
 pub type Uint = arith::U1024;
